@@ -1,11 +1,36 @@
 """Which units decide which property (DESIGN.md section 4/5)."""
 
+import os as _os
+
+_V = _os.environ.get("VERIF_HOME", "/verif")
+
+# Audits of assumed contracts (thorough tier). Bounded / sampled: never counted as proof.
+AUDITS = {
+    "slab": {
+        "what": "slab 0.4.9 behaves as the partial map assumed in verus/R and verus/Q (insert/remove/get_mut/contains/len/clear), any 3 operations from empty, keys < 3",
+        "kind": "bounded Kani run on the real slab crate (audit/slab)",
+        "cwd": _V + "/audit/slab",
+        "cmd": ["cargo", "kani"],
+        "timeout": 3000,
+        "ok_regex": r"VERIFICATION:- SUCCESSFUL",
+    },
+    "chrono": {
+        "what": "chrono 0.4.40 obeys the six contracts assumed in verus/T (nanoseconds, num_nanoseconds, from_timestamp, timestamp, timestamp_subsec_nanos) on a boundary grid and 200k seeded samples",
+        "kind": "seeded native sampling of the real chrono crate (audit/chrono)",
+        "cwd": _V + "/audit/chrono",
+        "cmd": ["cargo", "run", "--release", "--offline", "--quiet"],
+        "timeout": 600,
+        "ok_regex": r"AUDIT-OK",
+    },
+}
+
 PROPS = {
     "C19": {
         "kani": ["crux_time"],
         "verus": ["T"],
+        "audits": ["chrono"],
         "kani_timeout_quick": 300,
-        "kani_timeout_thorough": 3600,
+        "kani_timeout_thorough": 1500,
         "trusted_base": [
             "Kani 0.68 / CBMC 6.11 (MIR->goto translation, bit-precise machine integers with overflow checks on) and its SAT/SMT back end",
             "rustc (MIR of crux_time and of the real std::time bodies, which are verified together with crux's code, not assumed)",
@@ -64,6 +89,7 @@ PROPS = {
     "C09": {
         "kani": ["crux_core"],
         "verus": ["R"],
+        "audits": ["slab"],
         "kani_timeout_quick": 420,
         "kani_timeout_thorough": 3600,
         "trusted_base": [
@@ -105,6 +131,7 @@ PROPS = {
     "C13": {
         "kani": [],
         "verus": ["R", "Q"],
+        "audits": ["slab"],
         "trusted_base": ["Verus 0.2026.09.13 + Z3 (units R and Q)"],
         "assumptions": [
             "slab contracts and lock erasure as for C09",
